@@ -504,7 +504,26 @@ struct Pool {
       changed(d, false);
       check(d);
     } else if (op < 37) { // narrowing of a decreasing pair: A_j derived from A_i by strengthening
-      if (derived_from[j] != i || i == j) return;
+      if (i == j) return;
+      if (derived_from[j] != i) {
+        // make a decreasing pair: A_j := A_i strengthened by a constraint drawn around one of its witnesses
+        A[j] = A[i];
+        W[j] = W[i];
+        changed(j, false);
+        derived_from[j] = i;
+        const CState *w0 = W[j].empty() ? nullptr : &W[j][r.below(W[j].size())];
+        LinCst c = cst_around(w0);
+        note("A" + std::to_string(j) + "=A" + std::to_string(i) + "; A" + std::to_string(j) + "+=(" + str(p, c) + ")");
+        z_lin_cst_sys_t sys;
+        sys += B->cst(c);
+        A[j] += sys;
+        std::vector<CState> w2;
+        for (auto &s : W[j]) {
+          bool t;
+          if (eval_cst(c, s, t) && t) w2.push_back(s);
+        }
+        W[j] = w2;
+      }
       lastop = "narrowing";
       note("A" + std::to_string(d) + "=A" + std::to_string(i) + " narrow A" + std::to_string(j));
       std::vector<CState> w = W[j];
@@ -674,9 +693,12 @@ void run_chain_case(Ctx &ctx, int64_t kase, Rng &r, const DomInfo &d) {
   P.config += std::string(" thresholds=") + std::to_string(nth);
   // budget: number of strict increases allowed.  Octagons can drop (2n+1)^2 constraints, with thresholds each bound
   // can move |T|+1 times; x10 margin for the composite domains (powerset, term, products).
-  long nn = n + 4; // ints + bools + slack
-  long B0 = (2 * nn + 1) * (2 * nn + 1) * (nth + 2);
-  long budget = B0 * 10;
+  // budget: an octagon over n variables can lose at most (2n+1)^2 constraints, each bound can move through
+  // |T|+1 thresholds; capped at 1000 so that a chain that never stabilises is seen within the 1200 steps fed
+  // (largest number of strict increases observed on the unchanged tree: 5)
+  long nn = n;
+  long B0 = (2 * nn + 1) * (2 * nn + 1) * (nth + 1);
+  long budget = B0 < 1000 ? B0 : 1000;
   int style = r.below(5);
   z_abs_t x = d.make();
   {
@@ -688,7 +710,7 @@ void run_chain_case(Ctx &ctx, int64_t kase, Rng &r, const DomInfo &d) {
   long increases = 0, steps = 0;
   std::string trace;
   try {
-    for (int k = 0; k < 300; ++k) {
+    for (int k = 0; k < 1200; ++k) {
       // adversarial y_k
       z_abs_t y = d.make();
       z_lin_cst_sys_t sys;
